@@ -21,14 +21,19 @@ POS_TEXT = {
 }
 
 
-def render(b, common=False):
+def render(b, common=False, nature=0):
     """common: every USE ... ONLY / rename names one module, spelt with capitals (several USE statements of one module in a scope)."""
     sc, decls, refs = b["sc"], b["decls"], b["refs"]
 
     def modname(d, lower=False):
+        if nature == 2 and d["h"] in ("only", "ren"):
+            return "iso_c_binding" if lower else "ISO_C_Binding"
         if common and d["h"] in ("only", "ren"):
             return "ext_mod" if lower else "Ext_Mod"
         return "ext_%s" % d["n"]
+    # module nature (R1110): 1 NON_INTRINSIC on every USE of the external modules; 2 the localising USE statements name an
+    # intrinsic module and give one of its entities the local name (ONLY with a rename / a rename)
+    nat = {0: "", 1: ", non_intrinsic ::", 2: ", intrinsic ::"}[nature]
     n = len(sc)
     kids = {i: [] for i in range(0, n + 1)}
     for i, s in enumerate(sc, 1):
@@ -49,11 +54,11 @@ def render(b, common=False):
             if d["h"] == "decl":
                 continue
             if d["h"] == "only":
-                lines.append(ind + "use %s, only: %s" % (modname(d), d["n"]))
+                lines.append(ind + "use%s %s, only: %s" % (nat, modname(d), d["n"] + (" => c_associated" if nature == 2 else "")))
             elif d["h"] == "ren":
-                lines.append(ind + "use %s, %s => other_name_%s" % (modname(d), d["n"], d["n"]))
+                lines.append(ind + "use%s %s, %s => %s" % (nat, modname(d), d["n"], "c_associated" if nature == 2 else "other_name_" + d["n"]))
             else:
-                lines.append(ind + "use ext_%s" % d["n"])
+                lines.append(ind + "use%s ext_%s" % (nat if nature == 1 else "", d["n"]))
         for d in decls:
             if d["s"] == i and d["h"] == "decl":
                 lines.append(ind + "real :: %s" % d["n"])
@@ -169,7 +174,9 @@ def run(prop, tier=None, replay=None):
     for i, b in enumerate(behs):
         if "common" not in b:
             b["common"] = bool(i % 2)
-        src, tree = render(b, common=b["common"])
+        if "nature" not in b:
+            b["nature"] = (i // 2) % 3
+        src, tree = render(b, common=b["common"], nature=b["nature"])
         cases.append({"id": i, "src": src, "tree": tree, "beh": b})
     res = pmap(work, [{"id": c["id"], "src": c["src"]} for c in cases], timeout=120, batch=16)
     chk.phase("replay")
